@@ -56,6 +56,13 @@ claim("C14", "other",
       "Every source of an unordered sequence (MapKeys, MapRange, range over map, maps.Keys/Values) in module functions reachable from the API is enumerated and must be in a safe shape: sorted in place right after being stored / sorted by a call dominating every element access (sort.Slice's less must capture only the sorted slice and compare the same function of elements i and j strictly); or consumed by a loop with no carried value, error-only early exits and commuting effects; or collected then sorted. Then no outcome depends on visiting order. Order dependence inside pointerstructure is trusted.",
       "§4 C14", "unordered-iteration census with per-source shape decision (dominance, closure capture analysis, in-loop return classification)")
 
+claim("C02", "other",
+      "For each of the 27 reflect kinds the two sibling tables are extracted and compared with a spec transcribed from the statement: scalars get the comparator/coercion of their group (Int/int64/ParseInt(raw,0,64), Uint/uint64/ParseUint(raw,0,64), Float/float64/ParseFloat(raw,64), float32(Float())/float32/ParseFloat(raw,32), Bool/ParseBool, String/raw text), non-scalars get none and equality against them is an error; each coercion is exactly one strconv call on the unmodified Raw text returning strconv's error unchanged; no integer<->float conversion on either side; a failed coercion makes the matcher return (false, error) (one named ErrSyntax skip for heterogeneous []interface{}); json.Number narrows int64 then float64 before the dispatch; matchers receive Indirect(ValueOf(v)). Does not decide strconv's own arithmetic.",
+      "§4 C02", "sibling-table extraction by abstract execution per kind vs spec table; constant-argument/single-call checks of strconv wrappers; conversion census; coercion-error path analysis")
+claim("C11", "other",
+      "Non-interference proof from censuses: budget transported unmodified option->CreateEvaluator (iff non-zero)->grammar.MaxExpressions->parser.maxExprCnt, zero mapped to MaxUint64 after options are applied; the step counter has one writer (+1 in parseExpr's entry block) and is read only by that increment and one ordered comparison with the budget whose exceeded edge panics with errMaxExprCnt and which dominates the whole dispatch; all engine methods are entered only through parseExpr. Hence a limited run is a prefix of the unlimited run: exact threshold N, monotone, at most n+1 steps; panic recovered into the error (C10 rules imported).",
+      "§4 C11", "field read/write census + dominance + who-may-call census + symbolic transport check")
+
 def main():
     checks, nas = [], []
     for id in sorted(P):
